@@ -497,3 +497,16 @@ def ap_check_tx_validity_stub():
         else:
             ens.append(c)
     return dict(requires=req, ensures=ens)
+
+def pk_new_c():
+    return dict(requires=[C("distinct", "x != y", note="panics when both denominations are the same (to_canonical returns None)")],
+                ensures=[C("canonical", "res == pk_new(x, y) && pk_canonical(res)", "C15", "C16", note="the denomination with the smaller byte encoding on the left")])
+def pk_side(which):
+    return dict(ensures=[C("side", f"res == self.{which}", "C15")])
+def pk_to_canonical():
+    return dict(ensures=[C("canon", """res == (if bytes_lt(denom_bytes(self.left), denom_bytes(self.right)) { Some(self) }
+                        else if bytes_lt(denom_bytes(self.right), denom_bytes(self.left)) { Some(PoolKey { left: self.right, right: self.left }) } else { None::<PoolKey> })""", "C15")])
+def pk_stubs():
+    from spec import Fn as _Fn
+    return [_Fn(DEP_MELSWAP, "new", impl="PoolKey", mode="assume", **pk_new_c()), _Fn(DEP_MELSWAP, "left", impl="PoolKey", mode="assume", **pk_side("left")),
+            _Fn(DEP_MELSWAP, "right", impl="PoolKey", mode="assume", **pk_side("right"))]
